@@ -156,4 +156,7 @@ def check(ctx: Ctx) -> None:
     from ..purity import check_models_and_transformers
 
     ctx.soft(lambda: check_models_and_transformers(ctx, "C10.state", "resolving must not depend on earlier evaluations"))
+    from .c12 import shipped_rule
+
+    shipped_rule(ctx, "C10.shipped", ("pkg",))
     ctx.assume("L3/L4 (Transformer visits every node, scan_values yields every leaf); brackets leave no node (C01.brackets)")
